@@ -454,7 +454,11 @@ class Gen:
                 new = ("aassoc", n[1] + "X", n[2])
             elif k == "fn":
                 c = r.random()
-                if c < 0.4:
+                if c < 0.35:
+                    # another ABI: none (Rust ABI) vs `extern`/`extern "C"` vs `extern "system"`
+                    norm = lambda a: None if a is None else ('"C"' if a in ("", '"C"') else a)
+                    new = ("fn", n[1], self.pick([a for a in [None, '"C"', "", '"system"'] if norm(a) != norm(n[2])]), n[3], n[4])
+                elif c < 0.55:
                     new = ("fn", not n[1], n[2], n[3], n[4])
                 elif c < 0.7:
                     new = ("fn", n[1], n[2], n[3] + [("leaf", "u8")], n[4])
